@@ -775,7 +775,8 @@ class UnitBuild:
                                    loops=len(loops), has_contract=contract is not None))
         if canary:
             self.canaries.append(name)
-        elif it.canary and os.environ.get('VERIF_CANARIES', '1') == '1':
+        elif it.canary and (os.environ.get('VERIF_CANARIES', '1') == '1'
+                            or (os.environ.get('VERIF_CANARIES') == 'noparts' and not it.contract_q)):
             self.emit_fn(it, text, line0, canary=True)
 
     # ------------------------------------------------------------------
